@@ -125,6 +125,9 @@ def correspondence(ctx):
                  "large: links with 12000 products / 1.5 MB of captured stdout dumped by the library and loaded back, both wrappers, both loaders "
                  "(observable = length and SHA-256 of the canonical rendering). padded: a valid document, blanks, then junk starting around "
                  "64 KiB, 1 MiB, 2 MiB, 4 MiB: must be refused. "
+                 "sized: well-formed files of 1 MiB-1, 1 MiB+1, 4 MiB, 8 MiB+1, 16 MiB-1, 16 MiB, 16 MiB+1 (both wrappers), 17 MiB, 33 MiB "
+                 "(link with a long stdout by-product / many products, layout with a long readme), signed with an ed25519 key, dumped by the "
+                 "library, loaded with both loaders, compared (length and SHA-256 of the canonical rendering) and the signature verified. "
                  "non-trivial = every case (each has a non-empty document or metadata); distinct = distinct input JSON")
     _fuzz(ctx, corr)
     return corr
